@@ -15,15 +15,21 @@ Proof.
   - destruct (reqs s) as [|r] eqn:Er; [exists []; rewrite app_nil_r; auto|].
     destruct (blocked s) eqn:Eb; [exists []; rewrite app_nil_r; auto|].
     destruct (expired s t) eqn:Ee.
-    + set (s1 := {| dl := dl s; items := items s; reqs := r; blocked := false; results := results s ++ [[t; 1; 0]] |}).
+    + set (s1 := {| dl := dl s; items := items s; reqs := r; blocked := false; closed := closed s; results := results s ++ [[t; 1; 0]] |}).
       destruct (IH s1 t) as [new [H1 [H2 H3]]]. exists ([t; 1; 0] :: new).
       change (results s1) with (results s ++ [[t; 1; 0]]) in H1. change (dl s1) with (dl s) in H2.
       change (expired s1 t) with (expired s t) in H3. rewrite Ee in H3.
       rewrite H1, <- app_assoc. repeat split; try assumption.
       constructor; [cbn; auto|exact H3].
     + destruct (items s) as [|x rest] eqn:Ei.
-      * exists []. cbn [results dl]. rewrite app_nil_r. auto.
-      * set (s1 := {| dl := dl s; items := rest; reqs := r; blocked := false; results := results s ++ [[t; 0; x]] |}).
+      * destruct (closed s) eqn:Ec; [|exists []; cbn [results dl]; rewrite app_nil_r; auto].
+        set (s1 := {| dl := dl s; items := []; reqs := r; blocked := false; closed := true; results := results s ++ [[t; 2; 0]] |}).
+        destruct (IH s1 t) as [new [H1 [H2 H3]]]. exists ([t; 2; 0] :: new).
+        change (results s1) with (results s ++ [[t; 2; 0]]) in H1. change (dl s1) with (dl s) in H2.
+        change (expired s1 t) with (expired s t) in H3. rewrite Ee in H3.
+        rewrite H1, <- app_assoc. repeat split; try assumption.
+        constructor; [cbn; auto|exact H3].
+      * set (s1 := {| dl := dl s; items := rest; reqs := r; blocked := false; closed := closed s; results := results s ++ [[t; 0; x]] |}).
         destruct (IH s1 t) as [new [H1 [H2 H3]]]. exists ([t; 0; x] :: new).
         change (results s1) with (results s ++ [[t; 0; x]]) in H1. change (dl s1) with (dl s) in H2.
         change (expired s1 t) with (expired s t) in H3. rewrite Ee in H3.
@@ -41,7 +47,7 @@ Proof.
   - assert (reqs s = O) as -> by lia. simpl. rewrite app_nil_r. auto.
   - destruct (reqs s) as [|r] eqn:Er; [simpl; rewrite app_nil_r; auto|].
     rewrite Hb, He.
-    set (s1 := {| dl := dl s; items := items s; reqs := r; blocked := false; results := results s ++ [[t; 1; 0]] |}).
+    set (s1 := {| dl := dl s; items := items s; reqs := r; blocked := false; closed := closed s; results := results s ++ [[t; 1; 0]] |}).
     destruct (IH s1 t) as [H1 [H2 H3]]; try reflexivity; [exact He|simpl; lia|].
     simpl in *. rewrite H1, <- app_assoc. auto.
 Qed.
@@ -52,7 +58,7 @@ Lemma blocked_released_at_deadline s t : blocked s = true -> dl s <> 0 -> dl s <
 Proof.
   intros Hb Hd Ht. unfold expire_before. rewrite Hb.
   destruct (dl s =? 0) eqn:E0; [lia|]. destruct (dl s <? t) eqn:E1; [|lia]. cbn [andb negb].
-  set (s1 := {| dl := dl s; items := items s; reqs := reqs s; blocked := false; results := results s ++ [[dl s; 1; 0]] |}).
+  set (s1 := {| dl := dl s; items := items s; reqs := reqs s; blocked := false; closed := closed s; results := results s ++ [[dl s; 1; 0]] |}).
   destruct (start_reads_spec (S (reqs s)) s1 (dl s)) as [new [H1 _]]. exists new. rewrite H1. unfold s1. cbn [results].
   rewrite <- app_assoc. reflexivity.
 Qed.
@@ -82,7 +88,7 @@ Lemma not_expired_reads_data fuel s t x rest r : blocked s = false -> items s = 
   exists more, results (start_reads (S fuel) s t) = results s ++ [t; 0; x] :: more.
 Proof.
   intros Hb Hi He Hr. cbn [start_reads]. rewrite Hr, Hb, He, Hi.
-  set (s2 := {| dl := dl s; items := rest; reqs := r; blocked := false; results := results s ++ [[t; 0; x]] |}).
+  set (s2 := {| dl := dl s; items := rest; reqs := r; blocked := false; closed := closed s; results := results s ++ [[t; 0; x]] |}).
   destruct (start_reads_spec fuel s2 t) as [new [H1 _]]. exists new. rewrite H1. unfold s2. cbn [results].
   rewrite <- app_assoc. reflexivity.
 Qed.
